@@ -164,11 +164,15 @@ class H2Protocol:
         else:
             self.connection.initiate_connection()
         await self._flush()
+        # Before the upgraded request is handled, it may be answered at
+        # once (e.g. an invalid server name) which waits for the send task.
+        self.task_group.spawn(self.send_task)
         if headers is not None:
             event = _SyntheticRequest(stream_id=1, headers=headers)
             await self._create_stream(event)
-            await self.streams[event.stream_id].handle(EndBody(stream_id=event.stream_id))
-        self.task_group.spawn(self.send_task)
+            stream = self.streams.get(event.stream_id)
+            if stream is not None:  # Otherwise already closed, e.g. the client has gone
+                await stream.handle(EndBody(stream_id=event.stream_id))
 
     async def send_task(self) -> None:
         # This should be run in a seperate task to the rest of this
